@@ -15,7 +15,7 @@ pub struct Case13 {
     pub doc: DocD,
     /// overlay layer (index, layer) or none
     pub overlay: Option<(usize, LayerD)>,
-    /// L1..L11
+    /// L1..L12
     pub law: u8,
     /// law parameters: (index, dx, dy, seed)
     pub p: (usize, i32, i32, u64),
@@ -363,6 +363,95 @@ fn run(case: &Case13) -> Option<(String, Value)> {
             }
             None
         }
+        12 => {
+            // a transparent colour shows the cell beneath *as it is displayed*: where the topmost cell at a position (on an
+            // alpha layer, only normal-mode layers above it) has exactly one transparent colour and a solid cell follows
+            // beneath before any opaque layer, the position shows that topmost cell with its transparent colour resolved
+            // (Buffer::make_solid_color) against what the position shows once the topmost cell is taken away - whatever
+            // chars- and attributes-mode layers lie in between
+            if case.overlay.is_some() {
+                return None;
+            }
+            for y in bb.1..bb.3 {
+                for x in bb.0..bb.2 {
+                    let at = |l: &LayerD| -> Option<usize> {
+                        let (lx, ly) = (x - l.ox, y - l.oy);
+                        if !l.visible || lx < 0 || ly < 0 || lx >= l.w || ly >= l.h {
+                            return None;
+                        }
+                        l.cells.iter().rposition(|c| c.x == lx && c.y == ly && c.attr & icy_engine::attribute::INVISIBLE == 0)
+                    };
+                    let covers = |l: &LayerD| l.visible && x >= l.ox && y >= l.oy && x < l.ox + l.w && y < l.oy + l.h;
+                    // topmost normal-mode layer with a cell here; everything above it must be normal mode
+                    let mut top: Option<(usize, usize)> = None;
+                    for (li, l) in d.layers.iter().enumerate().rev() {
+                        if l.mode != 0 {
+                            if covers(l) {
+                                break;
+                            }
+                            continue;
+                        }
+                        if let Some(ci) = at(l) {
+                            top = Some((li, ci));
+                            break;
+                        }
+                        if covers(l) && !l.alpha {
+                            break;
+                        }
+                    }
+                    let Some((li, ci)) = top else { continue };
+                    let t = d.layers[li].cells[ci].clone();
+                    if !d.layers[li].alpha || (t.fg == TR) == (t.bg == TR) {
+                        continue;
+                    }
+                    // beneath: a solid normal-mode cell before any opaque layer, and no other transparent-colour cell here
+                    let mut solid_beneath = false;
+                    for l in d.layers[..li].iter().rev() {
+                        if !covers(l) {
+                            continue;
+                        }
+                        match at(l) {
+                            Some(c2) => {
+                                let c = &l.cells[c2];
+                                if c.fg == TR || c.bg == TR {
+                                    break;
+                                }
+                                if l.mode == 0 {
+                                    solid_beneath = true;
+                                    break;
+                                }
+                            }
+                            None => {
+                                if l.mode == 0 && !l.alpha {
+                                    break;
+                                }
+                            }
+                        }
+                    }
+                    if !solid_beneath {
+                        continue;
+                    }
+                    let mut d2 = d.clone();
+                    let (lx, ly) = (x - d.layers[li].ox, y - d.layers[li].oy);
+                    d2.layers[li].cells.retain(|c| !(c.x == lx && c.y == ly));
+                    let b2 = build(&d2, &None);
+                    let under = b2.get_char((x, y));
+                    if !under.is_visible() || under.attribute.get_foreground() == TR || under.attribute.get_background() == TR {
+                        continue;
+                    }
+                    let raw = base.layers[li].get_char((lx, ly));
+                    let expected = base.make_solid_color(raw, under);
+                    let got = base.get_char((x, y));
+                    if !same(&got, &expected) {
+                        return Some((
+                            "stacking|L12-transparent-colour-shows-the-cell-beneath-as-displayed".into(),
+                            json!({"x": x, "y": y, "topmost_cell": describe(&raw), "shown_without_it": describe(&under), "shown": describe(&got), "expected": describe(&expected)}),
+                        ));
+                    }
+                }
+            }
+            None
+        }
         _ => {
             // absolute oracle on the fragment
             if case.overlay.is_some() || d.layers.iter().any(|l| l.mode != 0 || l.cells.iter().any(|c| c.fg == TR || c.bg == TR)) {
@@ -423,9 +512,9 @@ pub struct C13 {}
 impl C13 {
     fn case_for(&self, ctx: &Ctx, k: u64) -> Case13 {
         let mut rng = ctx.rng(k);
-        let law = 1 + (k % 11) as u8;
+        let law = 1 + (k % 12) as u8;
         let normal_only = law == 6 || law == 7 || law == 9 || (law != 10 && rng.chance(1, 3));
-        let transparent = law == 7 || law == 9 || law == 11 || (law != 6 && rng.chance(1, 2));
+        let transparent = law == 7 || law == 9 || law == 11 || law == 12 || (law != 6 && rng.chance(1, 2));
         let mut d = DocD::single(10, 6);
         d.layers.clear();
         for _ in 0..(1 + rng.usize(5)) {
@@ -483,7 +572,35 @@ impl C13 {
                 l.oy = rng.range(-2, 3) as i32;
             }
         }
-        let overlay = if law != 6 && law != 7 && law != 9 && rng.chance(1, 4) {
+        if law == 12 && d.layers.len() >= 3 {
+            let n = d.layers.len();
+            for (i, l) in d.layers.iter_mut().enumerate() {
+                l.visible = true;
+                l.ox = rng.range(-1, 2) as i32;
+                l.oy = rng.range(-1, 2) as i32;
+                l.cells.clear();
+                let (top, middle) = (i == n - 1, i > 0 && i < n - 1);
+                l.mode = if middle && rng.chance(2, 3) { *rng.pick(&[1u8, 2]) } else { 0 };
+                if top {
+                    l.alpha = true;
+                }
+                for y in 0..l.h {
+                    for x in 0..l.w {
+                        if rng.chance(1, 3) {
+                            continue;
+                        }
+                        let (ch, fg, bg) = if top {
+                            let ch = *rng.pick(&[0xDCu32, 0xDF, 0xDC, 0xDF, 0x41]);
+                            if rng.bool() { (ch, rng.below(16) as u32, TR) } else { (ch, TR, rng.below(8) as u32) }
+                        } else {
+                            (*rng.pick(&[0xDCu32, 0xDF, 0xDB, 0x41, 0x20, 0xDD]), rng.below(16) as u32, rng.below(8) as u32)
+                        };
+                        l.cells.push(CellD { x, y, ch, fg, bg, attr: 0, fp: 0 });
+                    }
+                }
+            }
+        }
+        let overlay = if law != 6 && law != 7 && law != 9 && law != 12 && rng.chance(1, 4) {
             let mut l = gen_layer(&mut rng, true, false);
             l.alpha = true;
             l.visible = true;
@@ -538,7 +655,7 @@ impl Prop for C13 {
         "C13"
     }
     fn rule(&self) -> &'static str {
-        "stacks of 1..=5 layers (sizes 1..=12 x 1..=8, offsets -4..=6, normal/chars/attributes mode, alpha or opaque, visible or hidden, sparse content incl. transparent-colour half blocks, a third of the layers storing no rows beyond their last cell - none at all when they hold no cell -, optional overlay) are queried with Buffer::get_char at every position of the bounding box plus a 2-cell border before and after a transformation that the stacking laws say is invisible: L1 insert an empty alpha layer at a stack index; L2 rewrite the cells of a hidden layer; L3 translate every layer and the overlay by d and query at p+d; L4 remove all layers below a visible opaque normal-mode layer and query inside its rectangle (also where the opaque layer's own cell uses the transparent colour); L5 move a layer and query positions it covers neither before nor after; L6 compare with a 15-line reference compositor on the fragment 'all layers normal mode, no transparent colours, no overlay'; L7 on normal-mode stacks with transparent-colour cells the topmost visible cell supplies the glyph and each of its own non-transparent colours; L8 give the invisible cells of alpha layers a payload (glyph, colours, flags next to the INVISIBLE flag); L9 where the topmost cell is a half block (220/223) with one transparent colour above another half block, change the colour of the lower cell's half that lies behind the topmost cell's solid half; L10 exchange the glyphs stored in attributes-mode layers (blank <-> non-blank); L11 the first opaque contribution ends the walk: where the layers from a visible normal-mode layer i upward, with a cell of layer i at the position, show a visible cell with solid colours, the whole stack shows the same cell (two thirds of these stacks have a dense attributes- or chars-mode layer on top). Invisible results are compared as invisible only. distinct_nontrivial = distinct (law, stack shape, parameters) instances"
+        "stacks of 1..=5 layers (sizes 1..=12 x 1..=8, offsets -4..=6, normal/chars/attributes mode, alpha or opaque, visible or hidden, sparse content incl. transparent-colour half blocks, a third of the layers storing no rows beyond their last cell - none at all when they hold no cell -, optional overlay) are queried with Buffer::get_char at every position of the bounding box plus a 2-cell border before and after a transformation that the stacking laws say is invisible: L1 insert an empty alpha layer at a stack index; L2 rewrite the cells of a hidden layer; L3 translate every layer and the overlay by d and query at p+d; L4 remove all layers below a visible opaque normal-mode layer and query inside its rectangle (also where the opaque layer's own cell uses the transparent colour); L5 move a layer and query positions it covers neither before nor after; L6 compare with a 15-line reference compositor on the fragment 'all layers normal mode, no transparent colours, no overlay'; L7 on normal-mode stacks with transparent-colour cells the topmost visible cell supplies the glyph and each of its own non-transparent colours; L8 give the invisible cells of alpha layers a payload (glyph, colours, flags next to the INVISIBLE flag); L9 where the topmost cell is a half block (220/223) with one transparent colour above another half block, change the colour of the lower cell's half that lies behind the topmost cell's solid half; L10 exchange the glyphs stored in attributes-mode layers (blank <-> non-blank); L11 the first opaque contribution ends the walk: where the layers from a visible normal-mode layer i upward, with a cell of layer i at the position, show a visible cell with solid colours, the whole stack shows the same cell (two thirds of these stacks have a dense attributes- or chars-mode layer on top); L12 a transparent colour shows the cell beneath as it is displayed: where the topmost cell (alpha layer, only normal-mode layers above) has one transparent colour and a solid cell follows beneath before any opaque layer, the position shows that cell resolved with Buffer::make_solid_color against what the position shows once the cell is taken away - with chars- and attributes-mode layers in between. Invisible results are compared as invisible only. distinct_nontrivial = distinct (law, stack shape, parameters) instances"
     }
     fn meta(&self, ctx: &Ctx) -> Value {
         json!({"floor_evaluations": 5000, "floor_distinct": ctx.tier.pick(5000u64, 100000u64),
